@@ -137,6 +137,12 @@ def t_formula(rng, gid, configured=None, cls='FormulaGrader'):
     if maybe(rng, 0.25):
         cfg['tolerance'] = pick(rng, ['1%', 0.001, 0, '0%'])
     targets = []
+    if maybe(rng, 0.15):
+        # an author-defined sampling set (official extension point) for one variable
+        stub = gid + '.smp'
+        cfg.setdefault('sample_from', {})[variables[-1]] = {
+            '__sim__': {'cls': 'SimSampler', 'cfg': {'name': stub, 'mode': 'rng', 'lo': 1.0, 'hi': 3.0}}}
+        targets.append({'name': stub, 'n': cfg.get('samples', 5), 'where': 'sampler'})
     pal = {'right': [answer] + rights, 'wrong': list(wrongs),
            'malformed': [s.replace('x', variables[0]) for s in FORMULA_MALFORMED]}
     r = rng.random()
